@@ -54,9 +54,12 @@ VARIABLES ph,      \* "build" | "run"
           ghost,   \* offsets the last writer intended (ghost, for LocaInv)
           last,    \* last API call
           steps,   \* number of API calls
-          fixed    \* [i, m, before]: last Fix call (ghost)
+          hs       \* history: [res  |-> results of all Fix calls so far, each [i, m, src, g];
+                   \*           pgs  |-> gs before the last call (ghost), pres |-> res before the last call (ghost);
+                   \*           ops  |-> the calls made so far (what the harness replays)]
 
-vars == <<ph, acc, cur, pads, shape, enc, gs, have, prev, ghost, last, steps, fixed>>
+vars == <<ph, acc, cur, pads, shape, enc, gs, have, prev, ghost, last, steps, hs>>
+view == <<ph, acc, cur, pads, shape, enc, gs, have, prev, ghost, last, steps, hs.res, hs.pgs, hs.pres>>
 
 NoEnc == [fmt |-> -1, loca |-> <<>>, glyf |-> <<>>]
 Pick(s, k) == s[((Salt + k) % Len(s)) + 1]
@@ -112,7 +115,7 @@ AddRun(f, k) ==
          gy  == GenDeltas(f, 4, 32, k[1], cur[2], key + 7)
      IN /\ acc' = Append(acc, [f |-> f, n |-> k[1], rep |-> k[2], dx |-> gx.ds, dy |-> gy.ds])
         /\ cur' = <<gx.end, gy.end>>
-  /\ UNCHANGED <<ph, pads, shape, enc, gs, have, prev, ghost, last, steps, fixed>>
+  /\ UNCHANGED <<ph, pads, shape, enc, gs, have, prev, ghost, last, steps, hs>>
 
 \* the meaning of a run list: absolute points <<x, y, on>>
 Delta(f, sb, mb, d) == IF Bit(f, sb) THEN (IF Bit(f, mb) THEN d ELSE -d) ELSE IF Bit(f, mb) THEN 0 ELSE d
@@ -158,7 +161,7 @@ Finish(g, pad, fmt, lead) ==
      /\ shape' = vals
      /\ enc' = EncodeRecs(recs, fmt)
      /\ ghost' = OffsOf(recs)
-     /\ UNCHANGED <<acc, cur, pads, gs, have, prev, last, steps, fixed>>
+     /\ UNCHANGED <<acc, cur, pads, gs, have, prev, last, steps, hs>>
 
 \* one deterministic choice out of a finite set, selected by Salt and a key
 PickSet(S, key) == LET q == SetToSeq(S) IN q[((Salt + key) % Len(q)) + 1]
@@ -194,7 +197,7 @@ AddComp(aw, tr) ==
          n     == ArgLen(flags) + TrLen(flags)
      IN acc' = Append(acc, [flags |-> flags, gid |-> Pick(GidVals, key),
                             data |-> [j \in 1..n |-> (Salt * 7 + key * 13 + j * 29) % 256]])
-  /\ UNCHANGED <<ph, cur, pads, shape, enc, gs, have, prev, ghost, last, steps, fixed>>
+  /\ UNCHANGED <<ph, cur, pads, shape, enc, gs, have, prev, ghost, last, steps, hs>>
 
 \* ins: "none" | "empty" | "some"; all: WE_HAVE_INSTRUCTIONS on every component or on the last only
 CompValue(comps, ins, all) ==
@@ -239,14 +242,14 @@ AddGlyph(p, pad) ==
   /\ pad \in PadChoicesFor(Palette[p])
   /\ acc' = Append(acc, Palette[p])
   /\ pads' = Append(pads, pad)
-  /\ UNCHANGED <<ph, cur, shape, enc, gs, have, prev, ghost, last, steps, fixed>>
+  /\ UNCHANGED <<ph, cur, shape, enc, gs, have, prev, ghost, last, steps, hs>>
 
 FinishSet ==
   /\ ph = "build" /\ Kind = "set" /\ Len(acc) >= 1
   /\ \E fmt \in {0, 1} :
        LET recs == [i \in 1..Len(acc) |-> EncodeValue(acc[i]) \o Zeros(pads[i])] IN
        /\ ph' = "run" /\ shape' = acc /\ enc' = EncodeRecs(recs, fmt) /\ ghost' = OffsOf(recs)
-       /\ UNCHANGED <<acc, cur, pads, gs, have, prev, last, steps, fixed>>
+       /\ UNCHANGED <<acc, cur, pads, gs, have, prev, last, steps, hs>>
 
 ---------------------------------------------------------------------------
 (* kind "big": glyph sets whose glyf table has exactly a given size        *)
@@ -282,7 +285,7 @@ LocaSizes == {0, 2, 12, 65522, 65534, 65536, 131058, 131070, 131072}
 AddSize(s) ==
   /\ ph = "build" /\ Kind = "loca" /\ Len(acc) < MaxGlyphs
   /\ acc' = Append(acc, s)
-  /\ UNCHANGED <<ph, cur, pads, shape, enc, gs, have, prev, ghost, last, steps, fixed>>
+  /\ UNCHANGED <<ph, cur, pads, shape, enc, gs, have, prev, ghost, last, steps, hs>>
 
 LocaLayout ==
   (Kind = "loca" /\ Len(acc) >= 1) =>
@@ -298,20 +301,28 @@ LocaLayout ==
             /\ FormatValid(fmt, offs) => p.offs = offs            \* the announced version reads back
             /\ ~FormatValid(fmt, offs) => p.offs # offs           \* 16 bits cannot hold it
 
----------------------------------------------------------------------------
-(* API phase                                                               *)
+-------------------------------------------------------------------------------------------------------------------------------------------------
+(* API phase.  The in-memory glyph set gs is a VALUE: no call except Decode and Put replaces   *)
+(* it, and the results of earlier calls are values too.  Every call records the state before   *)
+(* it (hs.pgs, hs.pres) so that History below can say so.                                      *)
+Called(op, res2) == hs' = [res |-> res2, pgs |-> gs, pres |-> hs.res, ops |-> Append(hs.ops, op)]
+Op(name, i, m, k) == [op |-> name, i |-> i, m |-> m, k |-> k]
+
 Decode ==
   /\ ph = "run" /\ steps < MaxSteps /\ enc.fmt >= 0
+  /\ Kind = "ops" => (~have \/ last = "encode")
   /\ LET d == DecodeSet(enc.fmt, enc.loca, enc.glyf) IN
      /\ d.ok
      /\ gs' = [i \in 1..Len(d.d) |-> Value(d.d[i])]
      /\ have' = TRUE
   /\ last' = "decode" /\ steps' = steps + 1
-  /\ UNCHANGED <<ph, acc, cur, pads, shape, enc, prev, ghost, fixed>>
+  /\ Called(Op("decode", 0, <<>>, 0), hs.res)
+  /\ UNCHANGED <<ph, acc, cur, pads, shape, enc, prev, ghost>>
 
 \* a writer may pad every record to a multiple m of 2 and may use the long version at will
 Encode(m, fmt) ==
   /\ ph = "run" /\ steps < MaxSteps /\ have
+  /\ Kind = "ops" => (m = 2 /\ fmt = 1)          \* the replayed call has no parameters
   /\ LET recs == [i \in 1..Len(gs) |-> PadTo(EncodeValue(gs[i]), m)]
          offs == OffsOf(recs)
      IN /\ FormatValid(fmt, offs)
@@ -319,26 +330,55 @@ Encode(m, fmt) ==
         /\ ghost' = offs
   /\ prev' = gs
   /\ last' = "encode" /\ steps' = steps + 1
-  /\ UNCHANGED <<ph, acc, cur, pads, shape, gs, have, fixed>>
+  /\ Called(Op("encode", 0, <<>>, 0), hs.res)
+  /\ UNCHANGED <<ph, acc, cur, pads, shape, gs, have>>
 
 FixMaps == {<< <<3, 9>>, <<4, 4>>, <<258, 0>>, <<1, 65535>>, <<65535, 2>> >>,
             << <<3, 4>>, <<4, 3>>, <<258, 258>>, <<1, 1>>, <<65535, 65534>> >>}
+\* FixComponents(gs[i], m): a NEW glyph; gs and the earlier results stay what they are
 Fix(i, m) ==
-  /\ ph = "run" /\ steps < MaxSteps /\ have /\ last # "fix"
-  /\ i \in 1..Len(gs)
-  /\ fixed' = [i |-> i, m |-> m, before |-> gs[i]]
-  /\ gs' = [gs EXCEPT ![i] = FixValue(gs[i], m)]
+  /\ ph = "run" /\ steps < MaxSteps /\ have /\ Len(hs.res) < 3
+  /\ i \in 1..Len(gs) /\ gs[i].k = "c"
+  /\ Called(Op("fix", i, m, 0), Append(hs.res, [i |-> i, m |-> m, src |-> gs[i], g |-> FixValue(gs[i], m)]))
   /\ last' = "fix" /\ steps' = steps + 1
+  /\ UNCHANGED <<ph, acc, cur, pads, shape, enc, gs, have, prev, ghost>>
+
+\* the caller stores the latest result in the glyph set (as subsetting does)
+Put ==
+  /\ ph = "run" /\ steps < MaxSteps /\ have /\ Len(hs.res) >= 1 /\ last # "put"
+  /\ LET r == hs.res[Len(hs.res)] IN
+     /\ r.i <= Len(gs)
+     /\ gs' = [gs EXCEPT ![r.i] = r.g]
+     /\ Called(Op("put", r.i, <<>>, Len(hs.res)), hs.res)
+  /\ last' = "put" /\ steps' = steps + 1
   /\ UNCHANGED <<ph, acc, cur, pads, shape, enc, have, prev, ghost>>
+
+\* Components(gs[i]): an observation
+Comps(i) ==
+  /\ ph = "run" /\ steps < MaxSteps /\ have /\ Kind = "ops"
+  /\ i \in 1..Len(gs) /\ gs[i].k = "c"
+  /\ Called(Op("comps", i, <<>>, 0), hs.res)
+  /\ last' = "comps" /\ steps' = steps + 1
+  /\ UNCHANGED <<ph, acc, cur, pads, shape, enc, gs, have, prev, ghost>>
+
+(* kind "ops": call histories on a few fixed glyph sets with composite glyphs                   *)
+OpsSets == {<<8>>, <<5, 9>>, <<7, 1, 8>>}       \* palette indices
+OpsInit ==
+  \E set \in OpsSets :
+    LET pv   == [i \in 1..Len(set) |-> Palette[set[i]]]
+        recs == [i \in 1..Len(set) |-> PadTo(EncodeValue(pv[i]), 2)]
+    IN /\ shape = pv
+       /\ enc = EncodeRecs(recs, (Salt + Len(set)) % 2)
+       /\ ghost = OffsOf(recs)
 
 ---------------------------------------------------------------------------
 Init ==
   /\ acc = <<>> /\ cur = <<0, 0>> /\ pads = <<>>
   /\ gs = <<>> /\ have = FALSE /\ prev = <<>> /\ last = "new" /\ steps = 0
-  /\ fixed = [i |-> 0, m |-> <<>>, before |-> NilGlyph]
-  /\ IF Kind = "big"
-       THEN ph = "run" /\ BigInit
-       ELSE ph = "build" /\ shape = <<>> /\ enc = NoEnc /\ ghost = <<>>
+  /\ hs = [res |-> <<>>, pgs |-> <<>>, pres |-> <<>>, ops |-> <<>>]
+  /\ IF Kind = "big" THEN ph = "run" /\ BigInit
+     ELSE IF Kind = "ops" THEN ph = "run" /\ OpsInit
+     ELSE ph = "build" /\ shape = <<>> /\ enc = NoEnc /\ ghost = <<>>
 
 Next ==
   \/ \E f \in BaseFlags, k \in RunKinds : AddRun(f, k)
@@ -351,10 +391,12 @@ Next ==
   \/ Decode
   \/ \E m \in {2, 4}, fmt \in {0, 1} : Encode(m, fmt)
   \/ \E i \in 1..3, m \in FixMaps : Fix(i, m)
+  \/ Put
+  \/ \E i \in 1..3 : Comps(i)
 
 Spec == Init /\ [][Next]_vars
 
----------------------------------------------------------------------------
+-----
 (* Invariants                                                              *)
 
 \* the spec's decoder inverts the spec's encoder on every generated shape
@@ -389,24 +431,35 @@ RoundTrip ==
   /\ (last = "decode" /\ prev # <<>>) => CanonSet(gs) = CanonSet(prev)
   /\ (last = "decode" /\ prev = <<>>) => gs = shape
 
-\* FixComponents: ids rewritten exactly, all other bytes of the record identical
+\* FixComponents, stated on the whole state: every result so far is the source glyph with the
+\* ids rewritten exactly and all other bytes of the record identical; the call leaves the glyph
+\* set it was applied to, and every earlier result, unchanged (so do Components and Encode).
+ResultOK(r) ==
+  LET b  == r.src
+      a  == r.g
+      eb == EncodeValue(b)
+      ea == EncodeValue(a)
+  IN IF b.k # "c" THEN a = b
+     ELSE /\ ComponentIds(a) = [j \in 1..Len(b.comps) |-> MapId(r.m, b.comps[j].gid)]
+          /\ Len(ea) = Len(eb)
+          /\ \A j \in 1..Len(b.comps) : a.comps[j].flags = b.comps[j].flags /\ a.comps[j].data = b.comps[j].data
+          /\ a.instr = b.instr /\ a.hasinstr = b.hasinstr /\ a.bbox = b.bbox
+          /\ Cardinality({q \in 1..Len(ea) : ea[q] # eb[q]}) <= 2 * Len(b.comps)
 FixInv ==
-  last = "fix" =>
-    LET b == fixed.before
-        a == gs[fixed.i]
-        eb == EncodeValue(b)
-        ea == EncodeValue(a)
-    IN IF b.k # "c" THEN a = b
-       ELSE /\ ComponentIds(a) = [j \in 1..Len(b.comps) |-> MapId(fixed.m, b.comps[j].gid)]
-            /\ Len(ea) = Len(eb)
-            /\ \A j \in 1..Len(b.comps) : a.comps[j].flags = b.comps[j].flags /\ a.comps[j].data = b.comps[j].data
-            /\ a.instr = b.instr /\ a.hasinstr = b.hasinstr /\ a.bbox = b.bbox
-            /\ Cardinality({q \in 1..Len(ea) : ea[q] # eb[q]}) <= 2 * Len(b.comps)
+  /\ \A k \in 1..Len(hs.res) : ResultOK(hs.res[k])
+  /\ last \in {"fix", "comps", "encode"} => gs = hs.pgs                         \* source unchanged
+  /\ last # "new" => SubSeq(hs.res, 1, Len(hs.pres)) = hs.pres                   \* earlier results unchanged
+  /\ last = "fix" => hs.res[Len(hs.res)].src = gs[hs.res[Len(hs.res)].i]
 
 \* generation: one CASE line per finished shape
 Info == [kind |-> Kind, glyphs |-> Len(shape), runs |-> IF Kind = "simple" THEN Len(acc) ELSE 0,
          pts |-> IF Kind = "simple" THEN NumPts(acc) ELSE 0,
          ks |-> [i \in 1..Len(shape) |-> shape[i].k], ncs |-> [i \in 1..Len(shape) |-> shape[i].nc]]
-Emit == (ph = "run" /\ steps = 0) =>
+Emit == (ph = "run" /\ steps = 0 /\ Kind # "ops") =>
           PrintT(<<"CASE", ToJson([fmt |-> enc.fmt, loca |-> enc.loca, glyf |-> enc.glyf, info |-> Info])>>)
+\* kind "ops": the initial tables and the complete call history (Decode first, then MaxSteps - 1 calls)
+OpsTables == EncodeRecs([i \in 1..Len(shape) |-> PadTo(EncodeValue(shape[i]), 2)], (Salt + Len(shape)) % 2)
+EmitOps == (Kind = "ops" /\ steps = MaxSteps) =>
+          PrintT(<<"CASE", ToJson([fmt |-> OpsTables.fmt, loca |-> OpsTables.loca, glyf |-> OpsTables.glyf,
+                                   ops |-> hs.ops, info |-> Info])>>)
 =============================================================================
